@@ -240,10 +240,92 @@ pub fn gen_valid_frame(t: &mut Tape) -> Vec<u8> {
 
 const DELIMS: [u8; 5] = [rc::SD1, rc::SD2, rc::SD3, rc::SD4, rc::SC];
 
+/// The receive path that turns the decoder's verdict into bytes consumed and telegrams delivered
+/// (ProfibusPhy::receive_telegram / receive_all_telegrams, the second anchor of the property): a
+/// valid data frame or short confirmation with one damaged byte is received whole or in chunks.
+fn receive_path_case(t: &mut Tape, obs: &mut Obs) -> CaseResult {
+    use crate::simbus::ChunkPhy;
+    use profirust::phy::ProfibusPhy;
+    let mut frame = gen_valid_frame(t);
+    if frame[0] == rc::SD4 {
+        frame = vec![rc::SC];
+    }
+    let len = frame.len();
+    let pos = match t.below(4) {
+        0 => 3.min(len - 1),
+        1 => len - 1 - (t.below(2) as usize).min(len - 1),
+        _ => t.below(len as u64) as usize,
+    };
+    let mut val = t.u8();
+    if val == frame[pos] {
+        val ^= 1 << t.below(8);
+    }
+    if pos == 0 && DELIMS.contains(&val) {
+        // another delimiter in front changes the frame format itself (see the assumptions)
+        val ^= 0x01;
+    }
+    let mut m = frame.clone();
+    m[pos] = val;
+    let use_all = t.bool();
+    let whole = t.bool();
+    let now = profirust::time::Instant::ZERO;
+    let mut phy = ChunkPhy::default();
+    let mut poll = |phy: &mut ChunkPhy| -> Vec<RefFrame> {
+        let mut got: Vec<RefFrame> = vec![];
+        if use_all {
+            phy.receive_all_telegrams(now, |tel, _| got.push(to_ref(&tel)));
+        } else if let Some(x) = phy.receive_telegram(now, |tel| to_ref(&tel)) {
+            got.push(x);
+        }
+        got
+    };
+    if whole {
+        if rc::decode(&m) != RefVerdict::Reject {
+            obs.label("damaged-frame-not-rejected-by-the-reference");
+            return Ok(());
+        }
+        phy.buf = m.clone();
+        let got = poll(&mut phy);
+        ensure!(got.is_empty(), "damaged-frame-delivers", "{} with byte {} replaced by 0x{:02x}, received in one piece, delivers {:?}", hex(&frame), pos, val, got);
+        ensure!(phy.buf.is_empty(), "damaged-frame-not-discarded", "{} with byte {} replaced by 0x{:02x}: {} bytes still pending after it was rejected", hex(&frame), pos, val, phy.buf.len());
+        obs.label("whole");
+    } else {
+        // in chunks with a poll after each: whatever is delivered must be what the frame format
+        // reads at the start of the bytes that were pending, and never more is consumed than pending
+        // (the chunk PHY asserts the latter, like the crate's PHYs)
+        let mut off = 0;
+        let mut polls = 0u64;
+        while off < m.len() {
+            let n = (1 + t.below(4) as usize).min(m.len() - off);
+            phy.buf.extend_from_slice(&m[off..off + n]);
+            off += n;
+            let before = phy.buf.clone();
+            let got = poll(&mut phy);
+            polls += 1;
+            let mut o = 0;
+            for g in &got {
+                match rc::decode(&before[o..]) {
+                    RefVerdict::Accept(f, n) if f.normalised() == *g => o += n,
+                    r => fail!("damaged-frame-delivers", "{} with byte {} replaced by 0x{:02x}, received in chunks: delivered {:?} where the pending bytes {} read as {:?}", hex(&frame), pos, val, g, hex(&before[o..]), r),
+                }
+            }
+            ensure!(before.len() - phy.buf.len() >= o, "consumed-less-than-delivered", "{} bytes consumed but {} delivered from {}", before.len() - phy.buf.len(), o, hex(&before));
+        }
+        obs.count("polls", polls);
+        obs.label("chunked");
+    }
+    obs.label(if use_all { "receive_all_telegrams" } else { "receive_telegram" });
+    if len >= 6 {
+        obs.nontrivial(fingerprint(&(m.clone(), whole, use_all)));
+    }
+    obs.sample(|| json!({"valid_frame": hex(&frame), "damaged_byte": pos, "value": val, "whole": whole, "helper": if use_all { "receive_all_telegrams" } else { "receive_telegram" }}));
+    Ok(())
+}
+
 pub fn property() -> Property {
     Property {
         id: "C10",
-        rule: "cases: byte strings fed to Telegram::deserialize (and DataTelegram::deserialize under its caller contract) and compared with a reference decoder written from the frame format: all strings of length <= 2, all 3-byte strings starting with a delimiter, SD2 headers 68 LE LEr x (all (LE,LEr) pairs x 16 fourth bytes quick / all 256^3 thorough) each with a well-formed body of the announced length, whole and truncated/extended; valid frames with every single-bit flip at every position and every single-byte substitution at generated positions; random and mutated strings up to 262 bytes with all their prefixes. Non-trivial = the input starts with a start delimiter and is at least 3 bytes long; distinct by content hash.",
+        rule: "cases: byte strings fed to Telegram::deserialize (and DataTelegram::deserialize under its caller contract) and compared with a reference decoder written from the frame format: all strings of length <= 2, all 3-byte strings starting with a delimiter, SD2 headers 68 LE LEr x (all (LE,LEr) pairs x 16 fourth bytes quick / all 256^3 thorough) each with a well-formed body of the announced length, whole and truncated/extended; valid frames with every single-bit flip at every position and every single-byte substitution at generated positions; random and mutated strings up to 262 bytes with all their prefixes; (receive_path) valid data frames / SC with one substituted byte through ProfibusPhy::receive_telegram / receive_all_telegrams on a chunk PHY: received whole nothing is delivered and nothing stays pending, received in chunks every delivered telegram is what the reference decoder reads at the start of the pending bytes and never more is consumed than pending. Non-trivial = the input starts with a start delimiter and is at least 3 bytes long; distinct by content hash.",
         assumptions: vec![
             "reference decoder (harness/src/refcodec.rs) is a faithful rendering of the acceptance conditions of the FDL frame format",
             "'asks for more data only for a proper prefix of a frame of the announced length' is read as: only while the input is shorter than the length the bytes present announce",
@@ -338,6 +420,7 @@ pub fn property() -> Property {
                 obs.sample(|| json!({"valid_frame": hex(&frame)}));
                 Ok(())
             }),
+            SubCheck::tape("receive_path", "valid data frame / SC with one substituted byte received through ProfibusPhy::receive_telegram / receive_all_telegrams, whole or in generated chunks", receive_path_case),
             SubCheck::tape("fuzz_bytes", "raw byte string (one byte per choice; entry of the libFuzzer target fz_decoder): verdicts on every prefix", |t, obs| {
                 let s = t.rest_bytes();
                 check_prefixes(&s[..s.len().min(262)], obs)
@@ -400,6 +483,7 @@ pub fn property() -> Property {
                 Step::Enumerate { kind: "three_bytes", count: 5 << 16 },
                 Step::Enumerate { kind: "sd2_headers_q", count: 1 << 20 },
                 Step::Pbt { kind: "corrupt", cases: 12_000, max_len: 40 },
+                Step::Pbt { kind: "receive_path", cases: 40_000, max_len: 120 },
                 Step::Pbt { kind: "strings", cases: 100_000, max_len: 40 },
             ],
             Tier::Thorough => vec![
@@ -407,6 +491,7 @@ pub fn property() -> Property {
                 Step::Enumerate { kind: "three_bytes", count: 5 << 16 },
                 Step::Enumerate { kind: "sd2_headers", count: 1 << 24 },
                 Step::Pbt { kind: "corrupt", cases: 100_000, max_len: 40 },
+                Step::Pbt { kind: "receive_path", cases: 600_000, max_len: 120 },
                 Step::Pbt { kind: "strings", cases: 1_000_000, max_len: 40 },
                 Step::Fuzz { target: "fz_decoder", runs: 5_000_000 },
             ],
